@@ -1619,3 +1619,125 @@ def r7_10_axis_symmetry(ck, P):
                 else:
                     xs = [x for a_, e, x in v if a_ == 'x']; ys = [x for a_, e, x in v if a_ == 'y']
                     ck.violation(R, fn, '%s %s edge vs %s %s edge (%s)' % (k[0], k[1], k[2], k[3], _w(u)), 'the x comparison at %s and the y comparison at %s between the %s edge of %s and the %s edge of %s put the touching case on opposite sides: two boxes that merely touch are treated as overlapping in one axis and as disjoint in the other' % (xs[0].loc(), ys[0].loc(), k[1], k[0], k[3], k[2]), ys[0].loc())
+
+
+def r6_7_normalise_after_last_change(ck, P, rid='C06-R7'):
+    """T-MPT (ordering): the test that turns a one-rectangle region into its canonical form (data == NULL) is not followed, for the same
+    region and within the same loop iteration, by a call that can still reduce the number of rectangles."""
+    from .factors import _loops_of
+    R = ck.rule(rid, 'where a function normalises the single-rectangle case of a region (numRects == 1: free the data, data = NULL), no call that can still decrease that region\'s numRects (band coalescing) follows on the path on which the test found more than one rectangle: otherwise a region can end up with allocated data and a single rectangle, which the band operations take for the opposite (they save the rectangle array only when numRects > 1)', floor=12)
+    for u in units(P):
+        data = _reg(u) + '_data.numRects'
+        def _dec(f, x):
+            if _decrement(f, x):
+                return True
+            y = f.v(x.a[0])
+            if y is not None and y.op == 'sub':
+                z = f.v(y.a[0])
+                return z is not None and z.op == 'load' and f.last_field(f.path(z.a[0])) == data
+            return False
+        dec = {f.name for f in u.functions.values() if any(x.op == 'store' and f.last_field(f.path(x.a[1])) == data and _dec(f, x) for x in f.insts())}
+        L = _loops_of(u)
+        for fn, f in sorted(u.functions.items()):
+            loops = L.get(fn, [])
+            for b in f.blocks:
+                t = b.term
+                if t.op != 'br' or not t.a:
+                    continue
+                c = f.v(t.a[0])
+                if c is None or c.op != 'icmp' or c.d['p'] not in ('eq', 'ne') or ('field', data) not in f.atoms(t.a[0]):
+                    continue
+                if [int(o[1]) for o in c.a if o[0] == 'c'] != [1]:
+                    continue
+                one_edge = t.d['succ'][0] if c.d['p'] == 'eq' else t.d['succ'][1]
+                more_edge = t.d['succ'][1] if c.d['p'] == 'eq' else t.d['succ'][0]
+                # only a normalising test: the == 1 side clears region.data
+                if not any(y.op == 'store' and f.last_field(f.path(y.a[1])) == _reg(u) + '.data' and y.a[0][0] == 'n' for bb in ({one_edge} | f.reachable_blocks(one_edge, avoid={more_edge})) for y in f.blocks[bb].insts):
+                    continue
+                ck.saw(f)
+                ld = [a for a in f.atoms(t.a[0]) if a[0] == 'field']
+                hdrs = {lp['header'] for lp in loops if b.id in lp['blocks']}
+                reach = {more_edge} | f.reachable_blocks(more_edge, avoid=hdrs)
+                bad = None
+                for bb in reach:
+                    for y in f.blocks[bb].insts:
+                        if y.op == 'call' and y.callee in dec:
+                            bad = y
+                where = '%s/%s: single-rectangle normalisation at %s' % (u.name, fn, t.loc())
+                if bad is not None:
+                    ck.violation(R, fn, 'normalisation at %s (%s)' % (t.loc(), _w(u)), '%s tests numRects == 1 at %s and afterwards still calls %s (%s), which can merge bands and bring the region down to one rectangle: the region then keeps its data block with numRects == 1, and pixman_op, which saves the rectangle array of an aliased operand only when numRects > 1, overwrites the rectangles it is still reading' % (fn, t.loc(), bad.callee, bad.loc()), bad.loc())
+                else:
+                    ck.ok(R, where)
+
+
+def r6_8_extents_before_data_is_dropped(ck, P, rid='C06-R8'):
+    """typestate: the routine that recomputes the extents from the rectangle list does nothing for a region without a list
+    (data == NULL).  Once a function has set data = NULL, a call of that routine on the same region is a no-op: the single rectangle has
+    to be copied into the extents before its list is released."""
+    R = ck.rule(rid, 'no path leads from a store of NULL into a region\'s data pointer to a call of the extents-recomputing routine on that region (which returns at once when data == NULL): the extents of a region that has just been reduced to one rectangle are taken from that rectangle before the list is dropped', floor=8)
+    for u in units(P):
+        dataf = _reg(u) + '.data'
+        # role: the routine that returns early on data == NULL and stores into the extents
+        ext = [g for g in u.functions.values() if g.name.endswith('set_extents')]
+        if len(ext) != 1:
+            ck.incomplete(R, '%s: extents routine not recognised' % u.name); continue
+        ext = ext[0]
+        n = 0
+        for fn, f in sorted(u.functions.items()):
+            calls = [c for c in f.calls(ext.name)]
+            if not calls:
+                continue
+            nulls = [x for x in f.insts() if x.op == 'store' and x.a[0][0] == 'n' and f.last_field(f.path(x.a[1])) == dataf]
+            ck.saw(f)
+            n += 1
+            bad = None
+            for x in nulls:
+                relive = {y.bb.id for y in f.insts() if y.op == 'store' and y.a[0][0] != 'n' and f.last_field(f.path(y.a[1])) == dataf and y is not x}
+                reach = f.reachable_blocks(x.bb.id, avoid=relive)
+                for c in calls:
+                    same = f.root(f.path(c.a[0])) == f.root(f.path(x.a[1]))
+                    after_in_block = c.bb.id == x.bb.id and c.i > x.i
+                    if same and (after_in_block or c.bb.id in reach):
+                        bad = (x, c)
+            if bad:
+                x, c = bad
+                ck.violation(R, fn, 'extents after data = NULL (%s)' % _w(u), '%s sets the region\'s data pointer to NULL at %s and then calls %s (%s), which returns immediately for a region without a rectangle list: the extents keep the bounding box of the rectangles that have just been discarded, and since data == NULL means "the region is its extents" the region now contains points that were dropped' % (fn, x.loc(), ext.name, c.loc()), c.loc())
+            else:
+                ck.ok(R, '%s/%s: %d calls of %s, none after data = NULL' % (u.name, fn, len(calls), ext.name))
+
+
+def r7_11_limits_are_type_limits(ck, P):
+    """T-TAB against the types: the constants translate clamps box coordinates to are the smallest and the largest value of the box
+    coordinate type of that instantiation (16-bit boxes: -32768 / 32767, 32-bit boxes: INT32_MIN / INT32_MAX)."""
+    R = ck.rule('C07-R11', 'in translate, every constant that is stored into a box coordinate as a clamp is the minimum or the maximum of the coordinate\'s integer type, and both occur: the representable range of a region is exactly the range of its box type (a limit one unit short drops a representable column or row)', floor=2)
+    for u in units(P):
+        for fn, f in sorted(u.functions.items()):
+            if not fn.endswith('_translate'):
+                continue
+            ck.saw(f)
+            vals = {}
+            for x in f.insts():
+                if x.op != 'store' or x.a[0][0] != 'c':
+                    continue
+                p = f.path(x.a[1])
+                fs = [s for s in p[1] if isinstance(s, str) and '.' in s]
+                if not fs or fs[-1].split('.')[-1] not in ('x1', 'x2', 'y1', 'y2'):
+                    continue
+                w = int(x.a[0][2]) if len(x.a[0]) > 2 else 32
+                v = int(x.a[0][1])
+                if v >= 1 << (w - 1):
+                    v -= 1 << w
+                vals.setdefault((w, v), x)
+            if not vals:
+                ck.incomplete(R, '%s/%s: no clamp store found' % (u.name, fn)); continue
+            w = next(iter(vals))[0]
+            lo, hi = -(1 << (w - 1)), (1 << (w - 1)) - 1
+            wrong = [(v, x) for (w_, v), x in vals.items() if v not in (lo, hi)]
+            have = {v for (w_, v) in vals}
+            if wrong:
+                v, x = wrong[0]
+                ck.violation(R, fn, 'clamp constant %d (%s)' % (v, _w(u)), '%s clamps a box coordinate to %d; the coordinate type is %d bits wide and ranges over [%d, %d]: the region is cut one unit (or more) short of what its boxes can represent, or past it' % (fn, v, w, lo, hi), x.loc())
+            elif have != {lo, hi}:
+                ck.violation(R, fn, 'missing clamp (%s)' % _w(u), '%s clamps only to %s of the limits [%d, %d] of its coordinate type' % (fn, sorted(have), lo, hi), next(iter(vals.values())).loc())
+            else:
+                ck.ok(R, '%s/%s: clamps to [%d, %d]' % (u.name, fn, lo, hi))
